@@ -190,6 +190,11 @@ theorem readNat_sim_lf {r1 r2 : Rd} (l w : Nat) (h : Sim r1 r2) :
   simp only at hxy hs; subst hxy
   exact ⟨rfl, hs⟩
 
+theorem readNatural_sim_lf {r1 r2 : Rd} (l : Nat) (h : Sim r1 r2) :
+    Res.Rel PV (readNatural r1 l) (readNatural r2 l) := by
+  unfold readNatural
+  exact rel_ite_lf (fun _ => readNat_sim_lf R X l 64 h) (fun _ => trivial)
+
 theorem lenGuard_sim_lf {r1 r2 : Rd} (l : Nat) (h : Sim r1 r2) : lenGuard r1 l = lenGuard r2 l := by
   unfold lenGuard
   rw [pos_sim_lf R X h, length_sim_lf R X h]
@@ -323,7 +328,7 @@ theorem sigInfoBody_sim_lf (s : SigInfoSt) (typ l sp : Nat) {r1 r2 : Rd} (h : Si
   refine rel_ite_lf (fun _ => ?_) (fun _ => rel_ite_lf (fun _ => ?_) (fun _ => rel_ite_lf (fun _ => ?_) (fun _ =>
     rel_ite_lf (fun _ => ?_) (fun _ => rel_ite_lf (fun _ => ?_) (fun _ => rel_ite_lf (fun _ => ?_) (fun _ =>
     rel_ite_lf (fun _ => rel_oom_lf) (fun _ => unknownField_sim_lf R X _ _ _ h)))))))
-  · refine rel_bind_lf (readNat_sim_lf R X l 64 h) ?_
+  · refine rel_bind_lf (readNatural_sim_lf R X l h) ?_
     rintro ⟨v, a⟩ ⟨v', b⟩ ⟨h1, hs⟩
     simp only at h1 hs; subst h1
     exact ⟨rfl, hs⟩
@@ -338,11 +343,11 @@ theorem sigInfoBody_sim_lf (s : SigInfoSt) (typ l sp : Nat) {r1 r2 : Rd} (h : Si
     rintro ⟨v, a⟩ ⟨v', b⟩ ⟨h1, hs⟩
     simp only at h1 hs; subst h1
     exact ⟨rfl, hs⟩
-  · refine rel_bind_lf (readNat_sim_lf R X l 64 h) ?_
+  · refine rel_bind_lf (readNatural_sim_lf R X l h) ?_
     rintro ⟨v, a⟩ ⟨v', b⟩ ⟨h1, hs⟩
     simp only at h1 hs; subst h1
     exact ⟨rfl, hs⟩
-  · refine rel_bind_lf (readNat_sim_lf R X l 64 h) ?_
+  · refine rel_bind_lf (readNatural_sim_lf R X l h) ?_
     rintro ⟨v, a⟩ ⟨v', b⟩ ⟨h1, hs⟩
     simp only at h1 hs; subst h1
     exact ⟨rfl, hs⟩
@@ -366,11 +371,11 @@ theorem metaBody_sim_lf (m : MetaInfo) (typ l sp : Nat) {r1 r2 : Rd} (h : Sim r1
   unfold metaBody
   refine rel_ite_lf (fun _ => ?_) (fun _ => rel_ite_lf (fun _ => ?_) (fun _ => rel_ite_lf (fun _ => ?_)
     (fun _ => unknownField_sim_lf R X _ _ _ h)))
-  · refine rel_bind_lf (readNat_sim_lf R X l 64 h) ?_
+  · refine rel_bind_lf (readNatural_sim_lf R X l h) ?_
     rintro ⟨v, a⟩ ⟨v', b⟩ ⟨h1, hs⟩
     simp only at h1 hs; subst h1
     exact ⟨rfl, hs⟩
-  · refine rel_bind_lf (readNat_sim_lf R X l 64 h) ?_
+  · refine rel_bind_lf (readNatural_sim_lf R X l h) ?_
     rintro ⟨v, a⟩ ⟨v', b⟩ ⟨h1, hs⟩
     simp only at h1 hs; subst h1
     exact ⟨rfl, hs⟩
@@ -529,7 +534,7 @@ theorem interestHandle_sim_lf (k : Nat) (s : InterestSt) (l sp : Nat) {r1 r2 : R
     rintro ⟨v, a⟩ ⟨v', b⟩ ⟨h1, hs⟩
     simp only at h1 hs; subst h1
     exact ⟨rfl, hs⟩
-  · refine rel_bind_lf (readNat_sim_lf R X l 64 h) ?_
+  · refine rel_bind_lf (readNatural_sim_lf R X l h) ?_
     rintro ⟨v, a⟩ ⟨v', b⟩ ⟨h1, hs⟩
     simp only at h1 hs; subst h1
     exact ⟨rfl, hs⟩
